@@ -1,0 +1,13 @@
+//go:build verif
+// +build verif
+
+package x509
+
+// Hooks for the verification harness (build tag "verif" only).
+
+// VerifBer2der exposes the BER to DER transcoder used by ParsePKCS7.
+func VerifBer2der(ber []byte) ([]byte, error) { return ber2der(ber) }
+
+// VerifPad and VerifUnpad expose the PKCS#7 block padding helpers of the enveloped-data code.
+func VerifPad(data []byte, blocklen int) ([]byte, error)   { return pad(data, blocklen) }
+func VerifUnpad(data []byte, blocklen int) ([]byte, error) { return unpad(data, blocklen) }
